@@ -96,6 +96,21 @@ func buildFixture(c *lib.Ctx, variant string) *Fixture {
 // otherRootPort > 0 adds a site whose root does NOT hold the Casketfile (a
 // subdirectory), declared before all the others or after them: which roots
 // the Casketfile is hidden in must not depend on the company a site keeps.
+// servedRoot is the root path as written in the Casketfile: in the variant
+// without a top-level index page it goes through a symlink ("current ->
+// releases/42" style deployments); the Casketfile is then named through the
+// same link.
+func servedRoot(fx *Fixture, variant string) string {
+	if variant != "notopindex" {
+		return fx.Root
+	}
+	link := filepath.Join(fx.Base, "rootlink")
+	if _, err := os.Lstat(link); err != nil {
+		os.Symlink("root", link)
+	}
+	return link
+}
+
 func casketfile(fx *Fixture, sites []*Site, otherRootPort int, otherFirst bool) string {
 	tok := ""
 	if old := fx.Nodes["/Casketfile"]; old != nil {
@@ -113,7 +128,7 @@ func casketfile(fx *Fixture, sites []*Site, otherRootPort int, otherFirst bool) 
 		b.WriteString(other)
 	}
 	for _, s := range sites {
-		fmt.Fprintf(&b, "127.0.0.1:%d%s {\n\troot %s\n\tbind 127.0.0.1\n\ttls off\n", s.Port, s.Prefix, fx.Root)
+		fmt.Fprintf(&b, "127.0.0.1:%d%s {\n\troot %s\n\tbind 127.0.0.1\n\ttls off\n", s.Port, s.Prefix, servedRoot(fx, s.Variant))
 		if s.Variant == "notopindex" && s.Kind != "browse" {
 			// the hidden file named as a fallback index page: a directory request
 			// must still not hand it out
@@ -518,7 +533,7 @@ func runVariant(c *lib.Ctx, variant string) {
 	var sites []*Site
 	var sut *SUT
 	var err error
-	cfPath := filepath.Join(fx.Root, "Casketfile")
+	cfPath := filepath.Join(servedRoot(fx, variant), "Casketfile")
 	for attempt := 0; attempt < 6; attempt++ { // other processes on this machine may grab a port in between
 		ports := lib.FreePorts(7)
 		sites = nil
